@@ -1789,6 +1789,21 @@ func writeDecisions(path string, p *pkgInfo) {
 	for _, d := range disj {
 		ds = append(ds, "["+strings.Join(d, ", ")+"]")
 	}
-	sb.WriteString("/-- `FileSink.rotate`: the rotation condition in disjunctive normal form -/\ndef rotateCond : List (List Cond) := [" + strings.Join(ds, ", ") + "]\n\nend Evl.Generated\n")
+	sb.WriteString("/-- `FileSink.rotate`: the rotation condition in disjunctive normal form -/\ndef rotateCond : List (List Cond) := [" + strings.Join(ds, ", ") + "]\n\n")
+	// rotate: the calls into package os it makes itself (the directory operations of a rotation), in source order
+	var osCalls []string
+	if fd := p.funcs["FileSink.rotate"]; fd != nil {
+		ast.Inspect(fd.Body, func(n ast.Node) bool {
+			if ce, ok := n.(*ast.CallExpr); ok {
+				if se, ok := ce.Fun.(*ast.SelectorExpr); ok {
+					if id, ok := se.X.(*ast.Ident); ok && id.Name == "os" {
+						osCalls = append(osCalls, fmt.Sprintf("%q", se.Sel.Name))
+					}
+				}
+			}
+			return true
+		})
+	}
+	sb.WriteString("/-- `FileSink.rotate`: the functions of package os it calls itself, in source order (what it does to the directory besides closing, pruning and opening) -/\ndef rotateOsCalls : List String := [" + strings.Join(osCalls, ", ") + "]\n\nend Evl.Generated\n")
 	os.WriteFile(path, []byte(sb.String()), 0o644)
 }
